@@ -20,7 +20,8 @@ EV = {"update": 0, "freeze": 1, "activate": 2, "logout": 3}
 KIND = {"appchain": "KChain", "service": "KSvc", "rule": "KRule", "role": "KRole", "node": "KNode"}
 FLAG_FINDING = {"d_cache_failed_events": "C16-cache-fed-by-failed-tx", "d_cache_not_reloaded": "C16-cache-not-reloaded",
                 "d_logout_reject_unpauses": "C16-logout-reject-unpauses-services",
-                "d_withdraw_paused": "C16-withdraw-paused-proposal"}
+                "d_withdraw_paused": "C16-withdraw-paused-proposal",
+                "d_unpause_restores_locked": "C16-unpause-restores-locked-proposal"}
 
 
 # ----------------------------------------------------------------------------- blocks
@@ -112,8 +113,8 @@ def cfg_literal(known):
     # d_cache_not_reloaded is a fact of the code (the cache starts empty), harmless for gating on its own: always tried on and off
     # d_cache_deferred / a non-injective d_cache_key are not facts of the code: never part of the current set
     return ("{| d_cache_failed_events := %s; d_cache_not_reloaded := true; d_logout_reject_unpauses := %s; d_manage_reject_only := false; "
-            "d_withdraw_paused := %s; d_cache_key := fun i => i; d_cache_deferred := false |}") % tuple(
-        gbool(FLAG_FINDING[f] in known) for f in ("d_cache_failed_events", "d_logout_reject_unpauses", "d_withdraw_paused"))
+            "d_withdraw_paused := %s; d_unpause_restores_locked := %s; d_cache_key := fun i => i; d_cache_deferred := false |}") % tuple(
+        gbool(FLAG_FINDING[f] in known) for f in ("d_cache_failed_events", "d_logout_reject_unpauses", "d_withdraw_paused", "d_unpause_restores_locked"))
 
 
 def judge(ctx, pairs, known, tag="C16"):
@@ -301,6 +302,7 @@ def scenario_histories():
     out.append(S + [[3, 3, 10, []], T, [11, 0], T, [3, 3, 10, []], [10, 0, True], T, [12, 20, 10], [2, 1, 10, []], [3, 2, 10, []]])
     out += packed_scenarios()
     out += interleaved_scenarios()
+    out += transitional_scenarios()
     out += case_twins()
     return out
 
@@ -418,6 +420,25 @@ def case_twins(r=None):
             ops += [[13]]
         ops += r.sample(probe(), 2) + ([[12, 20, z]] if r.random() < 0.3 else [])
     return pack_some(r, ops)
+
+
+def transitional_scenarios():
+    """a service in every transitional / frozen status when its appchain becomes unusable (freeze approved, logout or
+    update submitted): it must be paused with its proposal; deciding that proposal afterwards must not bring it back"""
+    S = [[0, 1], [10, 0, True], [0, 2], [10, 0, True], [2, 1, 10, []], [10, 0, True], [2, 2, 20, []], [10, 0, True]]
+    A, T, B = [10, 0, True], [12, 10, 20], [12, 20, 10]
+    pre = {"frozen": [[3, 1, 10, []], A], "activating": [[3, 1, 10, []], A, [3, 2, 10, []]], "updating": [[3, 0, 10, [20]]],
+           "freezing": [[3, 1, 10, []]]}
+    out = []
+    for name, ops in pre.items():
+        for step in ([[1, 1, 1], A], [[1, 3, 1]], [[1, 0, 1]]):
+            h = S + ops + step + [T, B]
+            # whatever is still open about the service: try to approve it (refused when it was paused along with the service)
+            h += [[10, 1 if len(step) == 1 else 0, True], T, B, [3, 2, 10, []], [10, 0, True], T, B]
+            # the appchain comes back (activation approved / its own proposal rejected): the service follows
+            h += ([[1, 2, 1], A] if len(step) == 2 else [[10, 0, False]]) + [T, B, [10, 0, True], T, [13], T, B]
+            out.append(h)
+    return out
 
 
 def packed_scenarios():
@@ -563,8 +584,9 @@ def classify(v, known):
         by_withdraw = (v[1] % 50000) >= 25000   # the withdrawal of a paused proposal is what breaks the property on this history
         step = v[1] % 25000
         what = {1: "an interchain request was accepted/rejected against the stored service records (gate)", 2: "a status changed outside the declared state machine",
-                3: "a logged-out object became usable again", 4: "a frozen / logged-out appchain has an available service (cascade)"}.get(w, "?")
-        fid = {1: FLAG_FINDING["d_cache_failed_events"], 4: FLAG_FINDING["d_logout_reject_unpauses"]}.get(w)
+                3: "a logged-out object became usable again", 4: "a frozen / logged-out appchain has an available service (cascade)",
+                5: "a service with a pending logout left status logouting without a rejection or withdrawal"}.get(w, "?")
+        fid = {1: FLAG_FINDING["d_cache_failed_events"], 4: FLAG_FINDING["d_logout_reject_unpauses"], 5: FLAG_FINDING["d_unpause_restores_locked"]}.get(w)
         if explained and fid in known:
             return "known", fid
         if by_withdraw and FLAG_FINDING["d_withdraw_paused"] in known:
